@@ -187,7 +187,7 @@ Proof. vm_compute. repeat split; reflexivity. Qed.
 
 (* a completed run with contention, a poll, a Full and a notification *)
 Example C56_ex_completed_run :
-  match run_case 2 0 1 [1; 2; 3; 4] [1; 1; 1; 1; 1; 1; 0; 0; 0; 0; 0; 0; 0; 0; 0; 0; 0; 0; 1; 0; 1; 0; 1] with
+  match run_case 2 0 1 [1; 2; 3; 4] [1;1;1;1;1;1; 0;0;0;0;0;0;0;0;0;0; 1;1;1;1;1;1; 0;0;0; 1;1;1] with
   | Some (s, evs, _) => all_done s = true /\ pops_of evs = map Some (pushes_of evs) /\ pushes_of evs = [1; 2; 4]
   | None => False
   end.
